@@ -61,6 +61,20 @@ class Ids:
         return self.map.get(id(obj), 999999999)
 
 
+_DUMPS = {}
+
+
+def _dumps(v):
+    try:
+        k = (type(v), v)
+        r = _DUMPS.get(k)
+        if r is None:
+            r = _DUMPS[k] = json.dumps(v)
+        return r
+    except TypeError:
+        return json.dumps(v)
+
+
 def to_generic(node, ids):
     _ast = O.A()
     attrs = []
@@ -73,7 +87,7 @@ def to_generic(node, ids):
         elif isinstance(v, list) and all(isinstance(x, _ast.Node) for x in v):
             attrs.append([a, {"m": [to_generic(x, ids) for x in v]}])
         else:
-            attrs.append([a, {"s": json.dumps(v)}])
+            attrs.append([a, {"s": _dumps(v)}])
     return {"k": type(node).__name__, "i": ids.of(node), "a": attrs}
 
 
@@ -189,10 +203,11 @@ def run_real(text, kw, case):
     log = []
     members = [make_scripted(m["tag"], m["dispatching"], {int(k): v for k, v in m["script"]}, ids, log) for m in case["visitors"]]
     vis = _v.ChainedVisitor(*members) if case["chain"] else members[0]
-    req = {"op": "visit", "tree": g, "chain": case["chain"], "visitors": case["visitors"]}
+    req = {"op": "visit", "tree": g, "chain": case["chain"], "visitors": case["visitors"], "compact": True}
     try:
         res = vis.visit(root)
-        out = {"ret": None if res is None else to_generic(res, ids), "orig": to_generic(root, ids), "log": log}
+        orig = to_generic(root, ids)
+        out = {"ret": None if res is None else (orig if res is root else to_generic(res, ids)), "orig": orig, "log": log}
     except (AttributeError, TypeError) as e:
         out = {"err": type(e).__name__}
     except RecursionError:
@@ -257,7 +272,8 @@ def gen_cases(rng, text, kw, exhaustive, n_sample):
         for what in ("delete", "skip", "replace", "replace-other", "mutate"):
             a = action(i, what)
             if a is not None:
-                cases.append({"chain": False, "visitors": [plain({i: a}, disp=rng.random() < 0.3)], "what": what, "at": i})
+                cases.append({"chain": False, "visitors": [plain({i: a}, disp=rng.random() < 0.3)], "what": what, "at": i,
+                              "path": paths.get(i)})
     # wrong-kind replacements, multi-edit scripts, chains with editing members, sub-tree roots
     for _ in range(2 if not exhaustive else 4):
         i = rng.choice(ent)
@@ -343,7 +359,55 @@ def documents(ctx):
     return docs
 
 
+COLLAPSE_AT = 4   # >= this many distinct UNKNOWN signatures of one family = one wrapper-level cause
+
+
+class Collector:
+    """Buffers the direct-oracle failures of a run. Known findings pass through one by one; unknown signatures of the
+    same family (text before the first ':') that occur for many kinds / positions have ONE structural cause in the
+    shared wrapper (`_visit_method`, `map_and_filter`, `visit`), and are reported as one `family:many-positions`."""
+
+    def __init__(self, ctx):
+        import common
+        self.ctx = ctx
+        self.known = common.load_known()
+        self.match = common.match_known
+        self.items = {}
+
+    def fail(self, sig, what, detail):
+        it = self.items.get(sig)
+        if it is None:
+            self.items[sig] = [what, detail, 1]
+        else:
+            it[2] += 1
+            if len(detail.get("text", "")) < len(it[1].get("text", "")):   # keep the smallest document as the replay
+                it[0], it[1] = what, detail
+
+    def flush(self):
+        fam = {}
+        for sig, (what, detail, n) in self.items.items():
+            if self.match(PROPERTY, sig, self.known) is not None:
+                self._emit(sig, what, detail, n)
+            else:
+                fam.setdefault(sig.split(":")[0], []).append((sig, what, detail, n))
+        for f, lst in fam.items():
+            if len(lst) >= COLLAPSE_AT:
+                sig, what, detail, _ = min(lst, key=lambda x: len(x[2].get("text", "")))
+                d = dict(detail, collapsed=[x[0] for x in lst][:60], replay_signature=sig)
+                self._emit("%s:many-positions" % f, "%d distinct `%s` failures (first: %s)" % (len(lst), f, what), d, sum(x[3] for x in lst))
+            else:
+                for sig, what, detail, n in lst:
+                    self._emit(sig, what, detail, n)
+
+    def _emit(self, sig, what, detail, n):
+        self.ctx.fail(sig, what, detail)
+        for f in self.ctx.found:
+            if f["signature"] == sig and f["kind"] == "property":
+                f["count"] = n
+
+
 def run(ctx):
+    coll = Collector(ctx)
     try:
         table = T.extract_table()
         ctx.extra["table_methods"] = len(table["methods"])
@@ -363,11 +427,11 @@ def run(ctx):
         def fail(sig, what, detail, text=text, kw=kw):
             d = dict(detail)
             d.update({"text": text, "kw": kw})
-            ctx.fail(sig, what, d)
+            coll.fail(sig, what, d)
         try:
             direct_oracle(ctx, text, kw, fail, exhaustive)
         except Exception as e:  # noqa: never let an exception of the code under test escape
-            ctx.fail("internal:%s" % type(e).__name__, "the real visitor raises on a parsed document", {"text": text, "kw": kw, "exc": repr(e)})
+            coll.fail("internal:%s" % type(e).__name__, "the real visitor raises on a parsed document", {"text": text, "kw": kw, "exc": repr(e)})
             continue
         if ctx.model_ok:
             try:
@@ -380,6 +444,12 @@ def run(ctx):
                 req, out = run_real(text, kw, c)
                 reqs.append(req)
                 meta.append((text, kw, c, out))
+                # the SPECIFICATION `Spec.editAt` against the real result (delete / replace at one position)
+                if (c.get("what") in ("delete", "replace", "replace-other") and c.get("path") and "err" not in out
+                        and (exhaustive or ctx.rng.random() < 0.35)):
+                    act = c["visitors"][0]["script"][0][1]
+                    reqs.append({"op": "edit", "tree": req["tree"], "path": c["path"], "node": act.get("node")})
+                    meta.append((text, kw, dict(c, what="spec-edit:" + c["what"]), {"ret": out["ret"], "orig": out["ret"]}))
             for which in ("RemoveFieldAliasesVisitor", "CamelCaseToSnakeCaseVisitor", "SnakeCaseToCamelCaseVisitor"):
                 if "allow_type_system" in kw:
                     break
@@ -389,10 +459,11 @@ def run(ctx):
     if ctx.tier == "thorough" and ctx.time_left() > 120:
         big = (FIXTURES / "github-schema.graphql").read_text()
         try:
-            direct_oracle(ctx, big, {"allow_type_system": True}, lambda s, w, d: ctx.fail(s, w, dict(d, text="<github-schema.graphql>", kw={"allow_type_system": True})), False, big=True)
+            direct_oracle(ctx, big, {"allow_type_system": True}, lambda s, w, d: coll.fail(s, w, dict(d, text="<github-schema.graphql>", kw={"allow_type_system": True})), False, big=True)
             ctx.stat("doc:github-schema")
         except Exception as e:  # noqa
             ctx.fail("internal:%s" % type(e).__name__, "the real visitor raises on github-schema.graphql", {"exc": repr(e)})
+    coll.flush()
     if ctx.model_ok and reqs:
         answers = []
         for i in range(0, len(reqs), 400):
@@ -456,6 +527,10 @@ def compare(ctx, text, kw, case, out, ans):
             diff = "outcome"
         ctx.stat("outcome:" + str(out.get("err")))
     else:
+        if what.startswith("spec-edit:"):
+            ans = dict(ans, orig=ans.get("ret"))
+        if ans.get("orig") is None and "same" in ans:   # compact answer: orig omitted when equal to ret
+            ans = dict(ans, orig=ans["ret"])
         if out["ret"] != ans["ret"]:
             diff = "returned-tree"
         elif out["orig"] != ans["orig"]:
@@ -505,4 +580,5 @@ def replay(ctx, data):
             O.check_transforms(ctx, text, kw, fail)
     except Exception as e:  # noqa
         seen.append("internal:%s" % type(e).__name__)
+    sig = inp.get("replay_signature", sig)
     return sig not in seen
